@@ -39,6 +39,7 @@ type Harness struct {
 	Solvers    []string
 	Samples    int // number of paths for which a full model/trace is kept
 	Race       bool // submit each query to all solvers at once
+	KnownLabels map[string]bool // assertion labels listed as known findings for this harness
 
 	mapOrderDepth int
 }
@@ -87,6 +88,9 @@ type Result struct {
 	Discharged  int
 	Trivial     int
 	Violations  []Violation
+	NViolations int // all violating (path, assertion) pairs, including those not kept
+	NKnown      int // of which: listed known findings
+	knownKept   map[string]int
 	Inconcl     []string
 	Covers      map[string]int
 	Steps       int64
@@ -219,7 +223,23 @@ func Explore(w *World, h *Harness, workers int) *Result {
 				res.Obligs += pr.Obligs
 				res.Discharged += pr.Discharged
 				res.Trivial += pr.Trivial
-				res.Violations = append(res.Violations, pr.Violations...)
+				for _, v := range pr.Violations {
+					res.NViolations++
+					if v.Kind == "assert" && h.KnownLabels[v.Label] {
+						// a listed known finding: keep a few witnesses, and do not let
+						// it count towards the early stop (other violations of the
+						// property must still be searched for)
+						res.NKnown++
+						if res.knownKept[v.Label] >= 8 {
+							continue
+						}
+						if res.knownKept == nil {
+							res.knownKept = map[string]int{}
+						}
+						res.knownKept[v.Label]++
+					}
+					res.Violations = append(res.Violations, v)
+				}
 				for _, s := range pr.Inconcl {
 					res.Inconcl = append(res.Inconcl, fmt.Sprintf("path %v: %s", pr.Log, s))
 				}
@@ -253,7 +273,7 @@ func Explore(w *World, h *Harness, workers int) *Result {
 				if capHit {
 					res.PathCapHit = true
 				}
-				tooMany := len(res.Violations) > 50 || len(res.Inconcl) > 50
+				tooMany := res.NViolations-res.NKnown > 50 || len(res.Inconcl) > 50
 				rmu.Unlock()
 				if capHit || tooMany {
 					wl.stop()
@@ -266,7 +286,7 @@ func Explore(w *World, h *Harness, workers int) *Result {
 	}
 	wg.Wait()
 	wl.mu.Lock()
-	if len(wl.items) > 0 && !res.PathCapHit && len(res.Violations) <= 50 {
+	if len(wl.items) > 0 && !res.PathCapHit && res.NViolations-res.NKnown <= 50 {
 		res.Inconcl = append(res.Inconcl, fmt.Sprintf("exploration stopped early with %d prefixes pending", len(wl.items)))
 	}
 	if res.PathCapHit {
